@@ -299,3 +299,97 @@ var c06SeedQueries = []string{
 	"select * where key = 'a' limit 1,",
 	"select * where key = 'a' limit ,1",
 }
+
+// ---- dynamically typed members ------------------------------------------------
+
+// c06Shapes: the JSON text of member "m" in each dynamic type a document can give it.
+var c06Shapes = []struct{ name, text string }{
+	{"int", `7`}, {"float", `2.5`}, {"string", `"x"`}, {"numeric-string", `"12"`}, {"bool", `true`}, {"null", `null`},
+	{"int-array", `[1, 2, 3]`}, {"string-array", `["a", "b"]`}, {"mixed-array", `[1, "a", null, [2]]`}, {"empty-array", `[]`},
+	{"object", `{"k": 1, "n": "v"}`}, {"missing", ``},
+}
+
+// c06Templates: every operator family and function applied to a dynamically
+// typed member (json(value)['m'] is typed as text by the checker, so all of
+// these are accepted).
+var c06Templates = []string{
+	"select key, json(value)['m'] where key ^= ''",
+	"select key where json(value)['m'] = 'x'",
+	"select key where json(value)['m'] != 'x'",
+	"select key where 'x' = json(value)['m']",
+	"select key where json(value)['m'] = json(value)['n']",
+	"select key where json(value)['m'] < 'y'",
+	"select key where json(value)['m'] >= json(value)['n']",
+	"select key where json(value)['m'] ^= 'x'",
+	"select key where json(value)['m'] ~= '^x'",
+	"select key where json(value)['m'] in ('x', '12')",
+	"select key where 'x' in json(value)['m']",
+	"select key where json(value)['m'] between 'a' and 'z'",
+	"select key where int(json(value)['m']) > 3",
+	"select key where float(json(value)['m']) * 2 > 3",
+	"select key where is_int(json(value)['m']) | is_float(json(value)['m'])",
+	"select key, json(value)['m'] + 'x' where key ^= ''",
+	"select key, upper(json(value)['m']), lower(json(value)['m']), strlen(json(value)['m']), str(json(value)['m']) where key ^= ''",
+	"select key, substr(json(value)['m'], 0, 1) where key ^= ''",
+	"select key, split(json(value)['m'], ',') where key ^= ''",
+	"select key, join(',', json(value)['m'], 1) where key ^= ''",
+	"select key, len(json(value)['m']) where key ^= ''",
+	"select key, list(json(value)['m'], 2), int_list(json(value)['m']), float_list(json(value)['m']) where key ^= ''",
+	"select key, json(value)['m'][0] where key ^= ''",
+	"select key, json(value)['m'][1][0] where key ^= ''",
+	"select key, json(value)['m']['k'] where key ^= ''",
+	"select key, json(value)['m']['k']['z'] where key ^= ''",
+	"select key, l2_distance(json(value)['m'], list(1, 2, 3)), cosine_distance(list(1, 2, 3), json(value)['m']) where key ^= ''",
+	"select key, json(json(value)['m']) where key ^= ''",
+	"select key, json(value)['m'] as j where key ^= '' order by j",
+	"select key, json(value)['m'] as j where key ^= '' order by j desc, key",
+	"select json(value)['m'] as g, count(1) where key ^= '' group by g",
+	"select count(1), sum(json(value)['m']), avg(json(value)['m']), min(json(value)['m']), max(json(value)['m']) where key ^= ''",
+	"select quantile(json(value)['m'], 0.5), group_concat(json(value)['m'], ','), json_arrayagg(json(value)['m']) where key ^= ''",
+	"select key as k, json(value)['m'] as j, j + 'x' as w where j = 'x' | w != 'q'",
+	"select key where !(json(value)['m'] = 'x') & json(value)['m'] != ''",
+	"put ('p', 'v')",
+	"delete where json(value)['m'] = 'x'",
+	"delete where int(json(value)['m']) < 100 limit 1",
+}
+
+// TestC06Dynamic: every template over every assignment of dynamic types to
+// the member in the first three rows (the batch path chooses its comparison
+// kind from the first row of the chunk).
+func TestC06Dynamic(t *testing.T) {
+	lib.Stats.Exhaustive = true
+	idx := 0
+	doc := func(m, n string) string {
+		parts := []string{}
+		if m != "" {
+			parts = append(parts, `"m": `+m)
+		}
+		if n != "" {
+			parts = append(parts, `"n": `+n)
+		}
+		return "{" + strings.Join(parts, ", ") + "}"
+	}
+	for ti, tpl := range c06Templates {
+		for a, sa := range c06Shapes {
+			for b, sb := range c06Shapes {
+				for _, c := range []int{(a + b) % len(c06Shapes), (a*5 + b + 3) % len(c06Shapes)} {
+					idx++
+					if !lib.Mine(idx) {
+						continue
+					}
+					sc := c06Shapes[c]
+					pairs := []lib.Pair{
+						{K: "a", V: doc(sa.text, sb.text)},
+						{K: "b", V: doc(sb.text, sc.text)},
+						{K: "c", V: doc(sc.text, sa.text)},
+						{K: "d", V: "not json"},
+					}
+					if (ti+a)%2 == 0 {
+						pairs = pairs[:3]
+					}
+					c06Run(t, &c06Case{Query: tpl, Pairs: pairs}, true, "dynamic", "first-row="+sa.name)
+				}
+			}
+		}
+	}
+}
